@@ -5,6 +5,8 @@ Three rewrites that never change behaviour are undone, so that a rule sees one s
   * ``K == x`` / ``b.y == a.x``        ->  operands of ``==`` / ``!=`` in a fixed order: constants last, ``self...`` first,
                                            otherwise by text
   * ``t = E; return t`` (adjacent; t not read by a finally block) -> ``return E``
+  * ``not (a in b)`` / ``not (a is b)`` / ``not (a == b)``  ->  ``a not in b`` / ``a is not b`` / ``a != b``
+  * ``x = A if c else B`` (whole statement, plain name target)  ->  ``if c: x = A else: x = B``
 Line numbers are kept (copy_location), so reports still point at the author's lines."""
 from __future__ import annotations
 
@@ -26,20 +28,67 @@ def _pure(e):
 
 
 class _Canon(ast.NodeTransformer):
+    _NEGATIVE = {ast.NotEq: ast.Eq, ast.NotIn: ast.In, ast.IsNot: ast.Is}
+
+    def _positive(self, test):
+        """the un-negated form of a test that is a negation (`not c`, `a != b`, `a not in b`, `a is not b`), else None"""
+        if isinstance(test, ast.UnaryOp) and isinstance(test.op, ast.Not):
+            return test.operand
+        if isinstance(test, ast.Compare) and len(test.ops) == 1 and type(test.ops[0]) in self._NEGATIVE:
+            new = ast.Compare(test.left, [self._NEGATIVE[type(test.ops[0])]()], test.comparators)
+            ast.copy_location(new, test)
+            return new
+        return None
+
     def visit_If(self, node):
         self.generic_visit(node)
-        if node.orelse and isinstance(node.test, ast.UnaryOp) and isinstance(node.test.op, ast.Not):
-            # also when the else branch is a lone `if` (printed as elif): `if not c: A elif d: B` == `if c: (if d: B) else: A`
-            node.test = node.test.operand
-            node.body, node.orelse = node.orelse, node.body
+        if node.orelse:
+            pos = self._positive(node.test)
+            if pos is not None:
+                # also when the else branch is a lone `if` (printed as elif): `if not c: A elif d: B` == `if c: (if d: B) else: A`
+                node.test = pos
+                node.body, node.orelse = node.orelse, node.body
         return node
 
     def visit_IfExp(self, node):
         self.generic_visit(node)
-        if isinstance(node.test, ast.UnaryOp) and isinstance(node.test.op, ast.Not):
-            node.test = node.test.operand
+        pos = self._positive(node.test)
+        if pos is not None:
+            node.test = pos
             node.body, node.orelse = node.orelse, node.body
         return node
+
+    _COMPLEMENT = {ast.In: ast.NotIn, ast.NotIn: ast.In, ast.Is: ast.IsNot, ast.IsNot: ast.Is, ast.Eq: ast.NotEq, ast.NotEq: ast.Eq}
+
+    def visit_UnaryOp(self, node):
+        """``not (a in b)`` -> ``a not in b``; likewise ``is`` / ``==`` (single-operator comparisons only: for these the
+        negation is exactly the complementary operator; ordering comparisons are left alone)"""
+        self.generic_visit(node)
+        if isinstance(node.op, ast.Not) and isinstance(node.operand, ast.Compare) and len(node.operand.ops) == 1 and type(node.operand.ops[0]) in self._COMPLEMENT:
+            c = node.operand
+            new = ast.Compare(c.left, [self._COMPLEMENT[type(c.ops[0])]()], c.comparators)
+            ast.copy_location(new, node)
+            return self.visit_Compare(new) if isinstance(new.ops[0], (ast.Eq, ast.NotEq)) else new
+        return node
+
+    def _split_ternary(self, body):
+        """``x = A if c else B`` as a whole statement -> ``if c: x = A else: x = B`` (the statement form is the canonical one)"""
+        out = []
+        for st in body:
+            if isinstance(st, ast.Assign) and len(st.targets) == 1 and isinstance(st.targets[0], ast.Name) and isinstance(st.value, ast.IfExp):
+                v = st.value
+                a = ast.Assign([ast.Name(st.targets[0].id, ast.Store())], v.body)
+                b = ast.Assign([ast.Name(st.targets[0].id, ast.Store())], v.orelse)
+                new = ast.If(v.test, self._split_ternary([a]), self._split_ternary([b]))
+                new._from_ternary = True  # rules that count the author's own if statements can tell
+                for x in (a, b, new):
+                    ast.copy_location(x, st)
+                ast.copy_location(a.targets[0], st)
+                ast.copy_location(b.targets[0], st)
+                out.append(new)
+            else:
+                out.append(st)
+        return out
 
     def visit_Compare(self, node):
         self.generic_visit(node)
@@ -81,10 +130,10 @@ class _Canon(ast.NodeTransformer):
             for fld in ("body", "orelse", "finalbody"):
                 b = getattr(holder, fld, None)
                 if isinstance(b, list) and b and isinstance(b[0], ast.stmt) and not isinstance(holder, ast.ClassDef):
-                    setattr(holder, fld, self._merge_returns(b))
+                    setattr(holder, fld, self._split_ternary(self._merge_returns(b)))
             if isinstance(holder, ast.Try):
                 for h in holder.handlers:
-                    h.body = self._merge_returns(h.body)
+                    h.body = self._split_ternary(self._merge_returns(h.body))
         return node
 
     visit_AsyncFunctionDef = visit_FunctionDef
